@@ -3,15 +3,18 @@
 package verifharness
 
 import (
+	"bytes"
 	"fmt"
 	"strings"
 	"testing"
 
+	"github.com/protolambda/ztyp/codec"
 	"github.com/protolambda/ztyp/tree"
 	"github.com/protolambda/ztyp/view"
 )
 
 func c02Obs(t *Ty, v *Val, h tree.HashFn) string {
+	c02Route = (c02Route + 1) % 4
 	ser, blen, dser, droot, dval := "ERR", "ERR", "ERR", "ERR", "ERR"
 	var data []byte
 	okSer := false
@@ -50,7 +53,7 @@ func c02Obs(t *Ty, v *Val, h tree.HashFn) string {
 					dser, droot, dval = "PANIC", "PANIC", "PANIC"
 				}
 			}()
-			vw, err := deserialize(t, data)
+			vw, err := deserializeVia(t, data, c02Route)
 			if err != nil {
 				return
 			}
@@ -71,6 +74,36 @@ func c02Obs(t *Ty, v *Val, h tree.HashFn) string {
 		}()
 	}
 	return joinKV("ser="+ser, "blen="+blen, "dser="+dser, "droot="+droot, "dval="+dval)
+}
+
+// c02Route selects how the encoding reaches the decoder (the model's answer is the same for all):
+// 0 a bytes.Reader; 1 a stream that delivers 1..3 bytes per call with "no progress" calls
+// (0, nil) in between; 2 a reader the caller has already taken a header from (the value is
+// what remains of the scope); 3 the same with the header taken byte by byte.
+var c02Route int
+
+func deserializeVia(t *Ty, data []byte, route int) (view.View, error) {
+	switch route {
+	case 1:
+		r := &schedReader{data: append([]byte{}, data...), chunks: []int{1, 3, 2, 1, 1, 3, 2, 2}, failAfter: -1, stutter: true}
+		return t.Def().Deserialize(codec.NewDecodingReader(r, uint64(len(data))))
+	case 2, 3:
+		hdr := []byte{0xca, 0xfe, 0xba, 0xbe, 0x01}
+		dr := codec.NewDecodingReader(bytes.NewReader(append(append([]byte{}, hdr...), data...)), uint64(len(hdr)+len(data)))
+		if route == 2 {
+			if _, err := dr.Read(make([]byte, len(hdr))); err != nil {
+				return nil, err
+			}
+		} else {
+			for range hdr {
+				if _, err := dr.ReadByte(); err != nil {
+					return nil, err
+				}
+			}
+		}
+		return t.Def().Deserialize(dr)
+	}
+	return deserialize(t, data)
 }
 
 func TestC02(t *testing.T) {
